@@ -16,7 +16,7 @@ from pyvc import sym
 from pyvc.sym import lift, cfrac_eq, frac_eq
 from pyvc.interp import PyRaise, SObj, _dft_matrix
 from pyvc.oblig import obligation, verify, bounded, Goal, merge
-from .common import stable_rng, quick, Frame
+from .common import stable_rng, quick, Frame, num
 from .C08 import _cmat
 from .C20 import _meq
 
@@ -311,6 +311,95 @@ def ob_su(domain):
     return verify(body, check_side=False, timeout_ms=60000)
 
 
+def _su_history_native(seq, with_reads=True):
+    """the transmission history on a real SuChannel with path loss: after every transmission the reported response is sqrt(p) times
+    the response the underlying tapped-delay line reports for THAT transmission, and the output is the channel applied with it"""
+    from pyphysim.channels import singleuser, fading, fading_generators
+    rr = np.random.RandomState(21)
+    jakes = fading_generators.JakesSampleGenerator(Fd=0.01, Ts=1.0, L=8, RS=np.random.RandomState(4))
+    su = singleuser.SuChannel(jakes, _profile([0, 2]))
+    p = 0.37
+    su.set_pathloss(p)
+    done = []
+    for dom in seq:
+        N = 4 if dom == "time" else 8
+        x = rr.randn(N) + 1j * rr.randn(N)
+        out = su.corrupt_data(x) if dom == "time" else su.corrupt_data_in_freq_domain(x, 4)
+        done.append(dom)
+        ir = su.get_last_impulse_response()
+        raw = su._tdlchannel.get_last_impulse_response()
+        where = {"confirmed": True, "history": ">".join(done), "pathloss": p}
+        if np.shape(ir.tap_values_sparse) != np.shape(raw.tap_values_sparse):
+            return dict(where, reported_response_samples=list(np.shape(ir.tap_values_sparse)), last_transmission_samples=list(np.shape(raw.tap_values_sparse)))
+        if (not (np.abs(ir.tap_values_sparse - math.sqrt(p) * raw.tap_values_sparse).max() <= 1e-12)):
+            return dict(where, what="reported response is not sqrt(p) * the response of the last transmission",
+                        max_abs_difference=float(np.abs(ir.tap_values_sparse - math.sqrt(p) * raw.tap_values_sparse).max()))
+        if dom == "freq":
+            fr = ir.get_freq_response(4)
+            want = (fr[:, :2].T.reshape(-1) if False else None)
+            blocks = x.reshape(-1, 4)
+            want = np.concatenate([blocks[b] * fr[:, b] for b in range(blocks.shape[0])])
+            if np.shape(out) != want.shape or (not (np.abs(out - want).max() <= 1e-9)):
+                return dict(where, what="frequency-domain output is not the per-block product with the reported response",
+                            max_abs_difference=float(np.abs(out - want).max()) if np.shape(out) == want.shape else "shape")
+    return None
+
+
+@obligation("su/reported_response_follows_last_transmission",
+            params=[{"seq": "-".join(q)} for q in itertools.product(("time", "freq"), repeat=2)] +
+            [{"seq": "time-freq-freq"}, {"seq": "freq-time-freq"}], timeout=300,
+            desc="history on one SuChannel with a symbolic path loss: time- and frequency-domain transmissions in every order, the "
+                 "reported response read after each: it is sqrt(p) * the unscaled response of THAT transmission (number of samples "
+                 "included) and the output is the channel applied with exactly that response")
+def ob_su_history(seq):
+    ops = seq.split("-")
+
+    def rp(model):
+        try:
+            return _su_history_native(ops) or {"confirmed": False, "note": "real SuChannel reports the response of the last transmission along this history"}
+        except Exception as e:
+            return {"confirmed": False, "error": "replay crashed: %r" % (e,)}
+
+    def body(c, it):
+        from pyphysim.channels import singleuser
+        gen = SymFading(c)
+        su = it.call(singleuser.SuChannel, [gen, _profile([0, 2])])
+        p = c.var("p", "real")
+        c.assume((p >= 0) & (p <= 1))
+        it.call(it.getattr(su, "set_pathloss"), [p])
+        s = p.sqrt()
+        goals = []
+        for k, dom in enumerate(ops):
+            N = 4 if dom == "time" else 8
+            x = _sig(c, "x%d_" % k, N)
+            if dom == "time":
+                out = it.call(it.getattr(su, "corrupt_data"), [x])
+            else:
+                out = it.call(it.getattr(su, "corrupt_data_in_freq_domain"), [x, 4])
+            ir = it.call(it.getattr(su, "get_last_impulse_response"), [])
+            taps = it.getattr(ir, "tap_values_sparse")
+            raw = it.getattr(it.call(it.getattr(it.getattr(su, "_tdlchannel"), "get_last_impulse_response"), []), "tap_values_sparse")
+            tag = ">".join(ops[:k + 1])
+            ok = np.shape(taps) == np.shape(raw)
+            goals.append(Goal("[%s] reported response has the samples of this transmission" % tag, ok))
+            if not ok:
+                continue
+            goals.append(Goal("[%s] reported response == sqrt(p) * unscaled taps of this transmission" % tag, _meq(taps, raw * s)))
+            if dom == "time":
+                spec = _conv_spec(x, raw, [0, 2], N) * s
+            else:
+                F = _dft_matrix(4, False)
+                parts = []
+                for b in range(N // 4):
+                    dense = np.zeros(4, dtype=object)
+                    dense[0], dense[2] = raw[0, b], raw[1, b]
+                    parts.append(np.dot(F, dense) * x[4 * b:4 * b + 4] * s)
+                spec = np.concatenate(parts)
+            goals.append(Goal("[%s] output == sqrt(p) * channel(x) with that response" % tag, np.shape(out) == np.shape(spec) and _meq(out, spec)))
+        return goals
+    return verify(body, check_side=False, timeout_ms=60000, replay=rp)
+
+
 @obligation("mu/per_link_superposition", params=[{"domain": d} for d in ("time", "freq")], timeout=300,
             desc="MuChannel (2 receivers x 2 transmitters, symbolic path-loss matrix incl. zero entries): out[rx] == sum_tx sqrt(PL[rx,tx]) * "
                  "link_{rx,tx}(x[tx]) with each link's own reported response")
@@ -384,8 +473,37 @@ def ob_discretise(case):
         for v in lin:
             tot = tot + v
         goals.append(Goal("powers sum to one", tot * S == S))
+        c.inputs["powers"] = list(p)
         return goals
-    return verify(body, timeout_ms=60000)
+
+    def rp(model):
+        """the counter-model's linear tap powers (or generic ones) through the public constructor of the real class"""
+        from pyphysim.channels import fading
+        try:
+            delays, Ts = {"collide": ([0.0, 0.9e-6, 1.1e-6, 3.2e-6], 1e-6), "distinct": ([0.0, 2e-6, 5e-6], 1e-6),
+                          "unsorted": ([3e-6, 0.0, 1.4e-6, 1.6e-6, 3.3e-6], 1e-6)}[case]
+            cands = []
+            if isinstance(model, dict) and model.get("powers"):
+                pw = [float(num(v, 0.0)) for v in model["powers"]]
+                if all(x > 0 for x in pw):
+                    cands.append(pw)
+            cands.append([1.0, 0.5, 0.25, 0.125, 0.0625][:len(delays)])
+            cands.append([0.1, 0.7, 0.05, 0.3, 0.2][:len(delays)])
+            for pw in cands:
+                pw = np.array(pw, dtype=float)
+                prof = fading.TdlChannelProfile(10 * np.log10(pw), np.array(delays)).get_discretize_profile(Ts)
+                idx = [int(round(t / Ts)) for t in delays]
+                uniq = sorted(set(idx))
+                want = np.array([sum(pw[i] for i, k in enumerate(idx) if k == u) for u in uniq]) / pw.sum()
+                got = np.asarray(prof.tap_powers_linear, dtype=float)
+                if list(map(int, prof.tap_delays)) != uniq or got.shape != want.shape or (not (np.abs(got - want).max() <= 1e-9)):
+                    return {"confirmed": True, "tap delays": delays, "tap powers (linear)": pw.tolist(), "Ts": Ts,
+                            "discretised delays": [int(x) for x in prof.tap_delays], "discretised linear powers": got.tolist(),
+                            "expected delays": uniq, "expected powers (colliding taps added, normalised)": want.tolist()}
+            return {"confirmed": False, "note": "real class discretises these profiles as specified"}
+        except Exception as e:
+            return {"confirmed": False, "error": "replay crashed: %r" % (e,)}
+    return verify(body, timeout_ms=60000, replay=rp)
 
 
 # ------------------------------------------------------------------ bounded native
